@@ -650,8 +650,8 @@ func (fv *FuncVC) doReturn(r *ssa.Return) {
 // differ from its entry version only inside the declared modifies set.
 func (fv *FuncVC) checkFrame(env *Env, pos token.Pos) {
 	fc := fv.FC
-	if fc.Opts["has_modifies"] == "" && fc.Opts["modifies_nothing"] == "" {
-		return // no frame claimed
+	if fc.Opts["opt"] == "noframe" {
+		return // frame deliberately not checked (stated in the contract)
 	}
 	envPre := fv.newEnv(fv.entry, fv.entry)
 	byHeap, _ := fv.clausesByHeap(envPre, fc.Modifies)
